@@ -22,9 +22,14 @@
 (*   Str[s] = [c |-> UTF-8 bytes, p |-> dotted path segments,              *)
 (*             i |-> array index or -1, op |-> starts with "$"]            *)
 (***************************************************************************)
-EXTENDS Integers, Sequences, FiniteSets, TLC
+EXTENDS Integers, Sequences, FiniteSets, TLC, Json
 
-CONSTANT Str
+(* The string table of the run.  It is a definition rather than a CONSTANT   *)
+(* because TLC caches the value of a zero-arity constant definition, but     *)
+(* re-evaluates a cfg-level substitution (CONSTANT Str <- ...) on every use  *)
+(* inside LET-defined operators that are passed as operator arguments        *)
+(* (measured: the JSON file was re-read on every access).                    *)
+Str == JsonDeserialize("strings.json")
 
 Null    == [t |-> "null"]
 Missing == [t |-> "missing"]
